@@ -260,18 +260,18 @@ open Example
 
 theorem example_attrs1 (rest : Bytes) :
     readAttributes enc a1.attrs (root.attrBytes ++ rest) = .ok ([⟨.unitRef, .num 21⟩], rest) := by
-  have h := C03.form_value_roundtrip_partial enc ⟨0x01, .ref4, 0⟩ (.num 21) [21, 0, 0, 0] rest
-    (by decide) (by decide) (by intro h; cases h)
+  have h := C03.form_value_roundtrip enc ⟨0x01, .ref4, 0⟩ (.num 21) [21, 0, 0, 0] rest
+    (by decide) (by intro h; cases h)
   simp only [a1, root, readAttributes, h, Out.bind_ok, Out.pure_eq]
   rfl
 
 theorem example_attrs2 (n : UInt8) (rest : Bytes) :
     readAttributes enc a2.attrs ((leaf n).attrBytes ++ rest) = .ok ([⟨.data1, .num n.toNat⟩], rest) := by
-  have h := C03.form_value_roundtrip_partial enc ⟨0x0b, .data1, 0⟩ (.num n.toNat) [n] rest
+  have h := C03.form_value_roundtrip enc ⟨0x0b, .data1, 0⟩ (.num n.toNat) [n] rest
     (by
       have : n.toNat < 2 ^ (8 * 1) := UInt8.toNat_lt n
       simp [Spec.Attr.encodeForm, Spec.Attr.encFixed, this, enc, Ints.toBytes, Ints.leBytes])
-    (by decide) (by intro h; cases h)
+    (by intro h; cases h)
   simp only [a2, leaf, readAttributes, h, Out.bind_ok, Out.pure_eq]
   rfl
 
